@@ -20,7 +20,7 @@ def is_trivial(line, mo):
 
 
 def generate(rng, tier):
-    nbuf = 24 if tier == "quick" else 1000
+    nbuf = 40 if tier == "quick" else 1000
     for _ in range(nbuf):
         ln = rng.randrange(0, 10)
         buf = bytes(rng.choice([0, 0xFF, rng.randrange(256)]) if rng.random() < 0.3 else rng.randrange(256)
